@@ -2,6 +2,7 @@ package props
 
 import (
 	"fmt"
+	"math"
 	"sort"
 	"strings"
 	"testing"
@@ -132,6 +133,10 @@ func genC16(t *rapid.T) C16Case {
 	}
 	names := costNames(tree)
 	pool := []float64{1, 0, -1, 5, 7, 10, 50, 1000, -100, 2, 3}
+	if rapid.IntRange(0, 5).Draw(t, "hugecosts") == 0 {
+		// very large entries, pairwise distinct and exact in float64 (sums stay below 2^53)
+		pool = []float64{1, 0, 1e13, 1e14, 3e12, -1e13, 5, 2e12, 1000, 1e14, 1e13}
+	}
 	for _, n := range names {
 		p := 8
 		if n == "variable" || n == "operator" {
@@ -457,8 +462,43 @@ func checkC16(c C16Case, r *Rec) *Violation {
 		if bad != nil {
 			return bad
 		}
+		// (vii) entries for names the program does not contain - other spellings of its operators included -
+		// price nothing: the program is the same with and without them
+		{
+			used := map[string]bool{}
+			c.Tree.Walk(func(x *m.Node) {
+				if x.Kind == m.KVar || x.Kind == m.KOp {
+					used[x.Name] = true
+				}
+				if x.Kind == m.KIf {
+					used["if"], used["fi"] = true, true
+				}
+				if b, isBool := x.Val.(bool); x.Kind == m.KConst && isBool {
+					used[fmt.Sprint(b)] = true
+				}
+			})
+			extra := append([]CostEntry{}, c.Costs...)
+			for _, n := range []string{"zz_unused", "p99", "and", "or", "&", "&&", "|", "||", "not", "!", "eq", "=", "==", "ne", "!=", "gt", ">", "lt", "<", "ge", ">=", "le", "<=", "add", "+", "sub", "-", "mul", "*", "if", "fi", "true", "c_id", "c_sum"} {
+				if !used[n] && costTag[n] == "" {
+					extra = append(extra, CostEntry{Name: n, C: fstr(float64(700 + 13*len(extra)))})
+				}
+			}
+			onX, v := compile(base|MaskReorder, extra)
+			if v != nil {
+				return v
+			}
+			if onX.Dump != on.Dump {
+				return Violf("C16: cost entries for names that do not occur in the program changed it\n%s\nwith %d extra entries (%v ...)=%s", where(), len(extra)-len(c.Costs), extra[len(c.Costs):min(len(extra), len(c.Costs)+6)], m.Render(onX.DTree))
+			}
+		}
 		// (iv) a huge cost puts every operand mentioning X after all that do not; the others keep their order
-		huge := withCost(c.Costs, c.X, func(float64, bool) float64 { return 1e12 })
+		hugeCost := 1e12
+		for _, ce := range c.Costs {
+			if math.Abs(ce.F()) >= 1e9 {
+				hugeCost = 1e18 // "sufficiently large" is relative to what the other entries can add up to
+			}
+		}
+		huge := withCost(c.Costs, c.X, func(float64, bool) float64 { return hugeCost })
 		onH, v := compile(base|MaskReorder, huge)
 		if v != nil {
 			return v
@@ -478,7 +518,7 @@ func checkC16(c C16Case, r *Rec) *Violation {
 					continue
 				}
 				if seenMention {
-					bad = Violf("C16: with cost(%s)=1e12 the operand %s, which does not mention it, is evaluated after one that does\n%s\nhuge cost=%s", c.X, m.Render(k), where(), m.Render(onH.DTree))
+					bad = Violf("C16: with cost(%s)=%g the operand %s, which does not mention it, is evaluated after one that does\n%s\nhuge cost=%s", c.X, hugeCost, m.Render(k), where(), m.Render(onH.DTree))
 					return
 				}
 				bn = append(bn, canonBool(k))
@@ -489,7 +529,7 @@ func checkC16(c C16Case, r *Rec) *Violation {
 				}
 			}
 			if strings.Join(an, "\x00") != strings.Join(bn, "\x00") {
-				bad = Violf("C16: with cost(%s)=1e12 the operands that do not mention it changed their relative order\n%s\nhuge cost=%s", c.X, where(), m.Render(onH.DTree))
+				bad = Violf("C16: with cost(%s)=%g the operands that do not mention it changed their relative order\n%s\nhuge cost=%s", c.X, hugeCost, where(), m.Render(onH.DTree))
 			}
 		})
 		if bad != nil {
@@ -545,7 +585,7 @@ var _ = eval.Reordering
 
 var propC16 = Prop[C16Case]{
 	ID:    "C16",
-	Rule:  "trees with wide and/or nodes (2..40 operands, 60 thorough) whose operands are drawn from a few shapes over pairwise distinct variables (so identity is trackable and many operands have equal estimated cost while others differ), nested and/or, and/or below xor / if, arithmetic and comparison operators with operands of different cost; integer-valued cost maps with per-name, class-default and negative entries; a name X and delta in {1,5,1000}. Metamorphic oracles, for all 8 settings of the other three optimizations: (i) Dump with Reordering on = Dump with it off up to permutation of and/or operands; (ii) operands equal up to renaming of equally priced variables keep source order; (iii) under M[X+=delta] no operand mentioning X overtakes one that does not; (iv) under M[X:=1e12] all non-mentioning operands precede all mentioning ones and keep their relative order; (v) effects and result = short-circuit evaluation of the dumped order. Non-trivial = an and/or node with >= 2 operand shapes and at least one (mentions X, does not) pair; distinct by source + costs + X",
+	Rule:  "trees with wide and/or nodes (2..40 operands, 60 thorough) whose operands are drawn from a few shapes over pairwise distinct variables (so identity is trackable and many operands have equal estimated cost while others differ), nested and/or, and/or below xor / if, arithmetic and comparison operators with operands of different cost; integer-valued cost maps with per-name, class-default and negative entries; a name X and delta in {1,5,1000}. Metamorphic oracles, for all 8 settings of the other three optimizations: (i) Dump with Reordering on = Dump with it off up to permutation of and/or operands; (ii) operands equal up to renaming of equally priced variables keep source order; (iii) under M[X+=delta] no operand mentioning X overtakes one that does not; (iv) under M[X:=1e12] (1e18 when other entries are very large: one case in six draws entries of 1e12..1e14) all non-mentioning operands precede all mentioning ones and keep their relative order; (v) effects and result = short-circuit evaluation of the dumped order; (vii) entries for names that do not occur in the program (other spellings of its operators, unused variables, keywords) change nothing. Non-trivial = an and/or node with >= 2 operand shapes and at least one (mentions X, does not) pair; distinct by source + costs + X",
 	Gen:   genC16,
 	Check: checkC16,
 }
